@@ -1116,9 +1116,13 @@ def ranges_of_literal(lit):
     return ','.join(f'{a}-{b}' for a, b in zip(starts, starts[1:])) or '-'
 
 class CueText(Component):
+    """mode 'exact' (C20): well-formed texts must import to the described layout; mode 'total' (C12): only
+    totality is judged (a refused or differently imported text is not a C12 matter)"""
     name = 'cuetext'
     ops = ('cuetext',)
     profiles = ('release', 'checked')
+    def __init__(self, mode='exact'):
+        self.mode = mode
     def cases(self, rng, tier, boost):
         out = []
         for _ in range(self.budget(tier, boost, 300, 15000)):
@@ -1131,7 +1135,7 @@ class CueText(Component):
         h, cls, f = parse_outcome(impl)
         if h == 'panic':
             return (f'cuetext:{profile}:panic:{cls}', f'importing a cue sheet text panicked ({profile}): {cls}')
-        if 'expect' in cf:
+        if 'expect' in cf and self.mode == 'exact':
             if h != 'ok':
                 return ('cuetext:wellformed-refused:' + cls, f'a well-formed cue sheet was refused: {impl[:100]}')
             if f.get('cue') != cf['expect']:
@@ -1613,7 +1617,7 @@ PROPS['C12'] = dict(
     theorems=['Flac.C12.duration_no_panic', 'Flac.C12.trackRanges_no_panic', 'Flac.C12.trackByteRanges_no_panic', 'Flac.C12.cueDisplay_no_panic',
               'Flac.C12.sniff_no_panic', 'Flac.C12.plteColors_fuel', 'Flac.C12.jpegLoop_fuel', 'Flac.C12.parseMsf_ok', 'Flac.C12.pushIndex_np',
               'Flac.C12.stepTok_np', 'Flac.C12.cueParse_no_panic'],
-    components=[BlocksRead(), Accessors(), CueText(), Pictures()],
+    components=[BlocksRead(), Accessors(), CueText('total'), Pictures()],
     rule='byte strings as metadata sections (well-formed sections of every block kind incl. sample rate 0 and cue sheets with offsets near 2^64, then bit flips, truncation, block-header surgery, oversized declared lengths, '
          'random bytes) read with a counting allocator; every accessor (duration, decoded_len, channel_mask incl. the comment override, cue-sheet track ranges in samples and bytes, text export, catalog) on every list that parsed; '
          'cue sheet texts (well-formed and 15 malformation classes: reordered/dropped lines, out-of-range numbers, minutes up to 2^64, index points running backwards, non-CD-DA texts with 255-258 index points, Unicode spaces, ...); '
